@@ -473,6 +473,35 @@ theorem parseRdata_aaaa_text (gs : List Nat) (hlen : gs.length = 8) (hgs : ∀ g
     readField_plain parseIpv6 .InvalidIpv6 _ _ _ hplain hl hEnd (parseIpv6_render gs hlen hgs),
     expectEol_tail tg cmt _ hT eol r he, mkRdata_ok _ hmk]
 
+/-- CH A: network name and octal address -/
+theorem parseRdata_chA_text (T w : List UInt8) (k : Nat) (hn : NameTextOK ctx.origin T w k) (hnb : ¬ [92, 35] <+: T)
+    (a : Nat) (ha : a ≤ 65535)
+    (hG : ∀ i, i ≤ 1 → GapOK (G i) (S i) (S (i + 1))) (hT : TailOK tg cmt (S 2)) :
+    parseRdata ctx 3 1 ⟨gapText (G 0) ++ (T ++ (gapText (G 1) ++ (octalText a ++ (tailText tg cmt eol ++ r)))), line, S 0⟩ =
+      .ok (w ++ u16be a, ⟨r, line + gapLines (G 0) + k + gapLines (G 1) + gapLines tg + eolLines eol, false⟩) := by
+  have hEnd := atFieldEnd_tail tg cmt _ hT eol r he
+  have harm : findArm 3 1 = some "parse_ch_a_rdata" := by decide
+  have hoctS : Starts (octalText a ++ (tailText tg cmt eol ++ r)) := by
+    cases ho : octalText a with
+    | nil => exact absurd ho (octalText_ne_nil a)
+    | cons c t =>
+      obtain ⟨d, hd, rfl⟩ := octalText_digits a c (by rw [ho]; simp)
+      have := digit_plain (digit_octet (d := d) (by omega)).1
+      simp only [plainOctet, Bool.and_eq_true, Bool.not_eq_true'] at this
+      exact ⟨_, t ++ (tailText tg cmt eol ++ r), rfl, .inr this.1⟩
+  have hval : octVal (octalText a) 0 = a := by rw [octVal_octalText]; simp
+  have hchaos : ∀ l q, parseChaosnetAddress ⟨octalText a ++ (tailText tg cmt eol ++ r), l, q⟩ =
+      .ok (a, ⟨tailText tg cmt eol ++ r, l, q⟩) := by
+    intro l q
+    unfold parseChaosnetAddress
+    simp only [chaosLoop_digits l (octalText a) _ (octalText_digits a) hEnd 0 (by rw [hval]; exact ha), hval]
+  rw [parseRdata_typed ctx 3 1 _ harm _ _ _ (hG 0 (by omega)) T _ hn.starts hnb ((hG 1 (by omega)).atEnd _) line]
+  show chARdataBody ctx _ = _
+  unfold chARdataBody
+  simp only [bind, P.bind, pName, hn.parse _ _ _ ((hG 1 (by omega)).atEnd _),
+    (hG 1 (by omega)).skip _ _ hoctS, hchaos, expectEol_tail tg cmt _ hT eol r he,
+    mkRdata_ok (w ++ u16be a) (by have := hn.len; simp [u16be]; omega)]
+
 /-- HINFO: two character-strings -/
 theorem parseRdata_hinfo_text (cls : Nat) (s1 s2 : PString) (h1 : WFString s1) (h2 : WFString s2)
     (hnb : ¬ [92, 35] <+: stringText s1)
@@ -588,6 +617,7 @@ def WFRdata : PRdata → Prop
   | .txt s ss => (∀ x ∈ s :: ss, WFString x) ∧ notBh (stringText s) ∧ ((s :: ss).flatMap stringWire).length ≤ 65535
   | .hinfo c o => WFString c ∧ WFString o ∧ notBh (stringText c)
   | .aaaa gs => gs.length = 8 ∧ ∀ g ∈ gs, g < 65536
+  | .chA n a => WFName n ∧ notBh (nameText n) ∧ a ≤ 65535
 
 /-- **RDATA.**  The text of well-formed RDATA of the right kind for `(cls, ty)`, with any
     well-formed gaps before, inside and after it, is read back by `parse_rdata` as the RDATA it
@@ -710,5 +740,14 @@ theorem parseRdata_render (ctx : Ctx) (hctx : CtxWF ctx) (cls ty : Nat) (h41 : t
         rw [Nat.mod_eq_of_lt (by omega : g / 256 < 256)]
     rw [hw gs hgs] at this
     simpa [rdataText, rdataLines] using this
+  | chA n a =>
+    obtain ⟨hn, hnb, ha⟩ := hwf
+    simp only [kindOK, Bool.and_eq_true, beq_iff_eq] at hk
+    obtain ⟨rfl, rfl⟩ := hk
+    simp only [rdataWire, Option.map_eq_some_iff] at hw
+    obtain ⟨wn, hwn, rfl⟩ := hw
+    have := parseRdata_chA_text ctx G S tg cmt eol r he line (nameText n) wn (nameLines n)
+      (nameText_ok ctx.origin hO n hn wn hwn) hnb a ha hG hT
+    simpa [rdataText, rdataLines, u16Wire, u16be, Nat.add_assoc, Nat.add_comm (gapLines (G 0))] using this
 
 end QV.ZF
